@@ -24,6 +24,16 @@ pub fn predicate(name: &str, case: &Value, fail: &Fail) -> bool {
         "c11_deep_tree_emit" => {
             fail.category == "abort" && case["api"].as_str() == Some("emit") && case["depth"].as_u64().unwrap_or(0) >= 20_000
         }
+        // F25 (C06): a tab used as the indentation of a block collection whose parent is the
+        // document or a collection at indentation 0 is accepted (the scanner only polices tabs at
+        // columns below the current block indentation)
+        "c06_tab_top_level" => fail.category == "accepted:D04-tab-as-block-indentation:tab-at-column-0-parent-indent<=0",
+        // F15 (C06): a flow collection continued at (not deeper than) the indentation of its
+        // enclosing block is accepted when the continuation line starts with anything but a plain
+        // scalar
+        "c06_flow_continuation_nonplain" => {
+            fail.category.starts_with("accepted:D06-flow-continuation-not-deeper-than-block:flow-cont:") && !fail.category.ends_with(":plain")
+        }
         _ => false,
     }
 }
